@@ -155,6 +155,11 @@ fn main() {
             u2.push(RequestType::AddTcpFrontend(f.clone()).into());
             u2.push(RequestType::RemoveTcpFrontend(f).into());
         }
+        // path rules with an empty pattern of every kind (an EQUALS / REGEX rule with an empty pattern is not the default PREFIX "")
+        for (pr, host) in [(PathRule::equals(String::new()), "eq.example"), (PathRule::regex(String::new()), "re.example"), (PathRule::prefix(String::new()), "pre.example")] {
+            let f = RequestHttpFrontend { cluster_id: Some("c1".into()), address: SocketAddress::new_v4(127, 0, 0, 1, 8080), hostname: host.into(), path: pr, position: RulePosition::Tree.into(), ..Default::default() };
+            u2.push(RequestType::AddHttpFrontend(f).into());
+        }
         u2.push(RequestType::AddBackend(AddBackend { cluster_id: "c1".into(), backend_id: "b9".into(), address: SocketAddress::new_v4(10, 0, 0, 9, 9000), sticky_id: Some("sticky-9".into()),
                                                     load_balancing_parameters: Some(LoadBalancingParams { weight: 7 }), backup: Some(true) }).into());
     }
@@ -200,9 +205,18 @@ fn main() {
             }
         })();
         check("file", file_reqs);
+        // the state as it travels in the main-process upgrade payload (UpgradeData.state: serde_json of the ConfigState itself)
+        let json_state = serde_json::to_string(s).map_err(|e| format!("serde_json::to_string(ConfigState) failed: {e}"))
+            .and_then(|t| serde_json::from_str::<ConfigState>(&t).map_err(|e| format!("the JSON of the state does not parse back: {e}")));
+        let bad = match json_state { Ok(t) if normalise(t.clone()) == want => None, Ok(t) => Some(format!("the state read back from its JSON differs from the original: [{}]", describe(&t))), Err(e) => Some(e) };
+        if let Some(why) = bad {
+            if shapes.insert(format!("json-state:{}", why.split(':').next().unwrap_or(""))) {
+                failures.push((format!("S = [{}], path = json-state (upgrade payload)", describe(s)), why));
+            }
+        }
     }
     let fjson: Vec<String> = failures.iter().map(|(i, o)| format!("{{\"input\": {i:?}, \"observed\": {o:?}}}")).collect();
-    println!("{{\"bound\": \"every state of two universes explored breadth-first (<= {depth} / {} dispatched requests, capped at {cap} distinct states each), replayed on an empty state through 3 encodings (memory, protobuf InitialState, state file)\", \"states\": {n}, \"pairs\": {}, \"nontrivial_pairs\": {nontrivial}, \"failures\": [{}]}}", depth + 2, n * 3, fjson.join(", "));
+    println!("{{\"bound\": \"every state of two universes explored breadth-first (<= {depth} / {} dispatched requests, capped at {cap} distinct states each), replayed on an empty state through 4 encodings (memory, protobuf InitialState, state file, JSON of the state as in the upgrade payload)\", \"states\": {n}, \"pairs\": {}, \"nontrivial_pairs\": {nontrivial}, \"failures\": [{}]}}", depth + 2, n * 4, fjson.join(", "));
 }
 
 fn tempfile() -> std::io::Result<std::fs::File> {
